@@ -36,7 +36,10 @@ type Prog struct {
 }
 
 // Load loads the repository at dir. whole=true builds SSA bodies for all dependencies too.
-func Load(dir string, whole bool) (*Prog, error) {
+func Load(dir string, whole bool) (*Prog, error) { return LoadMin(dir, whole, 11) }
+
+// LoadMin is Load with the minimum number of module packages that must be found (the positive-control module is small).
+func LoadMin(dir string, whole bool, minPkgs int) (*Prog, error) {
 	os.Unsetenv("GOWORK")
 	mode := packages.NeedName | packages.NeedFiles | packages.NeedCompiledGoFiles | packages.NeedImports |
 		packages.NeedDeps | packages.NeedTypes | packages.NeedTypesSizes | packages.NeedSyntax | packages.NeedTypesInfo | packages.NeedModule
@@ -84,8 +87,8 @@ func Load(dir string, whole bool) (*Prog, error) {
 		p.infoOf[pkg.Types] = pkg.TypesInfo
 	}
 	sort.Slice(p.Pkgs, func(i, j int) bool { return p.Pkgs[i].PkgPath < p.Pkgs[j].PkgPath })
-	if len(p.Pkgs) < 11 {
-		return nil, fmt.Errorf("expected >= 11 module packages, loaded %d", len(p.Pkgs))
+	if len(p.Pkgs) < minPkgs {
+		return nil, fmt.Errorf("expected >= %d module packages, loaded %d", minPkgs, len(p.Pkgs))
 	}
 	for _, pkg := range p.Pkgs {
 		for imp := range pkg.Imports {
